@@ -95,6 +95,36 @@ Proof.
   apply undash. assumption.
 Qed.
 
+Lemma hexchar_more c : hexchar c -> is_space c = false /\ c <> 45 /\ c <> 43 /\ c <> 120 /\ c <> 88 /\ (c =? 95) = false.
+Proof.
+  unfold hexchar, is_space. intros H. split; [|repeat split; try lia; apply N.eqb_neq; lia].
+  destruct (N.leb_spec c 13); [lia|]. destruct (N.leb_spec c 32); [lia|]. rewrite !andb_false_r. reflexivity.
+Qed.
+
+Lemma hex_us_hexchars ds : Forall hexchar ds -> forall acc b, ds <> [] -> hex_us ds acc b = hex_parse ds acc.
+Proof.
+  induction 1 as [|c r Hc Hr IH]; intros acc b Hne; [congruence|]. cbn [hex_us hex_parse].
+  destruct (hexchar_more c Hc) as (_ & _ & _ & _ & _ & ->).
+  assert (exists d, hexval c = Some d) as [d ->].
+  { unfold hexval, hexchar in *. destruct Hc as [[H1 H2]|[H1 H2]].
+    - apply N.leb_le in H1, H2. rewrite H1, H2. cbn [andb]. eauto.
+    - destruct ((48 <=? c) && (c <=? 57)); [eauto|]. apply N.leb_le in H1, H2. rewrite H1, H2. cbn [andb]. eauto. }
+  destruct r as [|c2 r2]; [reflexivity|]. apply IH. discriminate.
+Qed.
+
+Lemma int16_hexchars ds : Forall hexchar ds -> (2 <= length ds)%nat -> int16 ds = hex_parse ds 0.
+Proof.
+  intros H Hlen. destruct ds as [|c1 [|c2 r]]; try (simpl in Hlen; lia).
+  inversion H as [|? ? H1 Hr]; subst. inversion Hr as [|? ? H2 Hr2]; subst.
+  destruct (hexchar_more c1 H1) as (S1 & M1 & P1 & _). destruct (hexchar_more c2 H2) as (_ & _ & _ & X2 & X2' & _).
+  unfold int16. cbn [lstrip]. rewrite S1.
+  rewrite rstrip_keep by (eapply Forall_impl; [|exact H]; intros c Hc; apply hexchar_more; assumption).
+  cbv beta iota zeta.
+  destruct (N.eqb_spec c1 45); [contradiction|]. destruct (N.eqb_spec c1 43); [contradiction|].
+  destruct (N.eqb_spec c2 120); [contradiction|]. destruct (N.eqb_spec c2 88); [contradiction|].
+  rewrite andb_false_r.
+  apply hex_us_hexchars; [assumption | discriminate].
+Qed.
 (* every identifier: the text as_str_if_uuid writes is read back as that identifier by uuid.UUID *)
 Theorem parse_uuid_braced : forall u, u < 2 ^ 128 -> parse_uuid (uuid_braced u) = Some u.
 Proof.
@@ -108,13 +138,14 @@ Proof.
     assert (Forall (fun c => c <> 117) (dashed ds)) as Hf.
     { apply Forall_dashed; [|discriminate]. eapply Forall_impl; [|exact Hch]. intros c Hc. apply hexchar_facts; assumption. }
     rewrite Forall_forall in Hf. apply (Hf _ E). reflexivity. }
-  unfold parse_uuid. unfold s_urn, s_uuidp. rewrite (remove_no_head _ _ _ _ Hnu), (remove_no_head _ _ _ _ Hnu).
+  unfold parse_uuid, uuid_clean. unfold s_urn, s_uuidp. rewrite (remove_no_head _ _ _ _ Hnu), (remove_no_head _ _ _ _ Hnu).
   cbn [lstrip]. change (is_brace c_lbrace) with true. cbv iota.
   assert (lstrip is_brace (dashed ds ++ [c_rbrace]) = dashed ds ++ [c_rbrace]) as ->.
   { destruct (dashed ds) as [|c r] eqn:E; [unfold dashed in E; destruct ds; [discriminate Hlen | discriminate E]|].
     cbn [app lstrip]. inversion Hnb as [|? ? Hc Hr]; subst. rewrite Hc. reflexivity. }
   rewrite rstrip_app_dropped by reflexivity. rewrite rstrip_keep by assumption.
   rewrite filter_dashed by assumption. rewrite Hlen. cbn [Nat.eqb].
+  rewrite int16_hexchars by (assumption || (rewrite Hlen; lia)).
   unfold ds. rewrite hex_parse_digits. cbn [hex_parse]. f_equal.
   change (16 ^ N.of_nat 32) with (2 ^ 128). rewrite N.mod_small by assumption. lia.
 Qed.
@@ -247,14 +278,72 @@ Proof.
 Qed.
 
 Theorem meta_refusals :
-  (forall m, (forall d, m <> JDict d) -> meta_trip m = Err TypeErr)
+  (forall m, (forall d, m <> JDict d) -> m <> JNull -> meta_trip m = Err TypeErr)
+  /\ meta_trip JNull = Ok JNull
   /\ (forall d, plain (dmap (JDict d)) = false -> meta_trip (JDict d) = Err TypeErr)
   /\ (forall k u, meta_trip (JDict [(k, JList [JList [JUuid u]])]) = Err TypeErr)
   /\ (forall k, meta_trip (JDict [(k, JBad)]) = Err TypeErr).
 Proof.
   repeat split.
-  - intros m H. destruct m; try reflexivity. exfalso. eapply H. reflexivity.
+  - intros m H Hn. destruct m; try reflexivity; [congruence|]. exfalso. eapply H. reflexivity.
   - intros d H. unfold meta_trip. rewrite H. reflexivity.
+Qed.
+
+(* ------------------------------------------------------------------ several assignments: merge, None, refusals *)
+Lemma meta_run_single : forall m,
+  meta_trip m = match meta_run Repaired mfresh [m] with
+                | (st, [None]) => meta_reopen st
+                | (_, [Some e]) => Err e
+                | _ => Err TypeErr
+                end.
+Proof.
+  intros m. destruct m; try reflexivity. simpl. unfold meta_store.
+  destruct (forallb (fun kv => plain (snd kv)) (map (fun kv => (fst kv, dmap (snd kv))) d)) eqn:E; simpl; rewrite ?E; reflexivity.
+Qed.
+
+(* a refused assignment changes neither the entity nor the file (repaired code) ... *)
+Theorem meta_refusal_atomic : forall st v,
+  (forall d, v = JDict d -> plain (dmap v) = false) -> v <> JNull -> meta_assign Repaired st v = (st, Some TypeErr).
+Proof.
+  intros st v H Hn. destruct v; try reflexivity; [congruence|]. unfold meta_assign. rewrite (H d eq_refl). reflexivity.
+Qed.
+
+(* ... REFUTED for the code as shipped: the stored metadata are gone and the entity holds the refused value *)
+Definition meta_refusal_atomic_prop (w : ver) : Prop :=
+  forall st v e, snd (meta_assign w st v) = Some e -> fst (meta_assign w st v) = st.
+
+Theorem meta_refusal_atomic_old_refuted : ~ meta_refusal_atomic_prop Old.
+Proof.
+  intros H.
+  specialize (H {| mem := Some [([97]%N, JInt 1)]; file := Some (JDict [([97]%N, JInt 1)]) |} (JDict [([98]%N, JBad)]) TypeErr eq_refl).
+  discriminate H.
+Qed.
+
+Theorem meta_none_clears : forall w st, meta_assign w st JNull = (mfresh, None) /\ meta_reopen mfresh = Ok JNull.
+Proof. intros w st. split; reflexivity. Qed.
+
+Lemma plain_dset k v d :
+  plain v = true -> forallb (fun kv => plain (snd kv)) d = true -> forallb (fun kv => plain (snd kv)) (dset k v d) = true.
+Proof.
+  intros Hv. induction d as [|[k' v'] r IH]; simpl; intros H; [rewrite Hv; reflexivity|].
+  apply andb_true_iff in H as [H1 H2]. destruct (lN_eqb k k'); simpl; [rewrite Hv, H2 | rewrite H1, IH by assumption]; reflexivity.
+Qed.
+
+(* merging: a second dictionary is merged key by key into the first (dict.update), and the merged dictionary is what is
+   stored and read back *)
+Theorem meta_merge_roundtrip : forall d1 d2,
+  plain (dmap (JDict d1)) = true -> plain (dmap (JDict d2)) = true ->
+  let m := dupdate d1 d2 in
+  meta_ok (JDict m) = true ->
+  exists st, meta_run Repaired mfresh [JDict d1; JDict d2] = (st, [None; None])
+             /\ mem st = Some m /\ file st = Some (dmap (JDict m)) /\ meta_reopen st = Ok (JDict m).
+Proof.
+  intros d1 d2 H1 H2 m Hok.
+  pose proof (meta_roundtrip (JDict m) Hok) as Hrt. unfold meta_trip in Hrt.
+  destruct (plain (dmap (JDict m))) eqn:Hp; [|discriminate Hrt].
+  exists {| mem := Some m; file := Some (dmap (JDict m)) |}.
+  unfold meta_run, meta_assign, mfresh. cbn [mem]. rewrite H1. unfold meta_store at 1. rewrite H1. cbn [mem]. rewrite H2.
+  unfold meta_store. fold m. rewrite Hp. repeat split. exact Hrt.
 Qed.
 
 (* ------------------------------------------------------------------ comments *)
